@@ -257,6 +257,30 @@ func c10Case(w *fw.W, idx int, r *fw.Rand) {
 		if doc == "" {
 			doc = c10Doc(r, 2)
 		}
+	case r.P(1, 40):
+		// many container levels (arrays, dicts, computed attrs in any mix) around one value that
+		// cannot be decoded: the rejection must not cost more than the document is long
+		n := []int{10, 20, 30, 60}[r.Intn(4)]
+		leaf := r.Pick([]string{`{"t":99}`, `null`, `{"t":9,"v":{"name":"nope"}}`, `{"t":0,"v":"x"}`, `{"t":6,"v":{"list":7}}`, `{"t":3}`})
+		var open, close strings.Builder
+		var closers []string
+		for i := 0; i < n; i++ {
+			switch r.Intn(3) {
+			case 0:
+				open.WriteString(`{"t":6,"v":{"list":[`)
+				closers = append(closers, `]}}`)
+			case 1:
+				open.WriteString(`{"t":7,"v":{"dict":{"k":`)
+				closers = append(closers, `}}}`)
+			default:
+				open.WriteString(`{"t":5,"v":{"expr":"1","attrs":{"a":`)
+				closers = append(closers, `}}}`)
+			}
+		}
+		for i := len(closers) - 1; i >= 0; i-- {
+			close.WriteString(closers[i])
+		}
+		doc, kind = open.String()+leaf+close.String(), "deep-broken"
 	case r.P(1, 20):
 		n := []int{50, 500, 2000}[r.Intn(3)]
 		doc, kind = strings.Repeat(`{"t":6,"v":{"list":[`, n)+`{"t":0,"v":1}`+strings.Repeat(`]}}`, n), "deep"
